@@ -74,6 +74,9 @@ void harness(void)
     ASSERT(WF(sizeof)() <= 0x60, "wrapper object fits the harness slot");
     for (int i = 1; i < 4; ++i) for (int j = 0; j < 3; ++j) mx[i][j] = nondet_u64();
     uint64_t arg = nondet_u8();
+#ifdef MRA_BOUNDS
+    ASSUME(mx[1][0] >= 1 && mx[1][0] <= 4096);      /* memory_resource_adapter divides by max_node_size(): bounded for the solver */
+#endif
 #if defined(NEED_POW2_ARG)
     { uint64_t k = nondet_u8(); ASSUME(k <= 6); arg = UINT64_C(1) << k; }
 #endif
